@@ -116,7 +116,16 @@ def run_once(ctx):
     # predefined users govern registration (password of the user, else the server password; mask): the gate
     # explorer's login sequences under the two configurations with [[users]]
     from .. import gate
-    for cfgname in ("users", "srvpw+users"):
+    for cfgname in ("users", "srvpw+users", "srvpw"):
+        gc = gate.core_worker((binary, hooks, cfgname, ctx.seed))
+        res.evaluations += gc["cases"]
+        for sig, detail in gc["findings"]:
+            res.findings.append(Finding("boot:predefined-users:" + sig, detail, {"engine": "gate"}))
+        if gc["inconclusive"]:
+            res.inconclusive += 1
+            res.inconclusive_notes.append(gc["inconclusive"])
+        if cfgname == "srvpw":
+            continue
         g = gate.gate_worker((binary, hooks, cfgname, ctx.seed, True, 0, 6))
         res.evaluations += g["cases"]
         res.distinct.add("predefined-users:" + cfgname)
